@@ -24,6 +24,7 @@ func runC06(c *Ctx) {
 	r08_1(c, "R06.6")
 	r04_4send(c, "R06.7")
 	r06_8(c, "R06.8")
+	r06_9(c, "R06.9")
 }
 
 // walkCallback returns the FS.Walk callback literal of sender.walk.
@@ -488,6 +489,39 @@ func r06_5(c *Ctx, rule string) {
 	// the walked FS is sender.fs from the root
 	ok := isFieldLoad(walkCall.Common().Value, "fsutil.sender.fs")
 	c.R.Check(ok, rule, c.siteName(walkCall)+"/fs", c.pos(walkCall), "walks sender.fs", "sender.walk does not walk sender.fs")
+}
+
+// R06.9: a success path cancels nobody.
+func r06_9(c *Ctx, rule string) {
+	c.R.Rule(rule, "sender.run / receiver.run and their goroutines never invoke a context.CancelFunc except as a deferred cleanup of the function that created it: the FIN exchange, or any other success path, must not cancel a sibling goroutine (a walk still announcing entries, a worker still sending)")
+	n, bad := 0, 0
+	for _, name := range []string{"fsutil.(*sender).run", "fsutil.(*receiver).run"} {
+		run := c.Fn(rule, name)
+		if run == nil {
+			continue
+		}
+		for _, f := range append([]*ssa.Function{run}, eng.Closures(run)...) {
+			f := f
+			eng.Instrs(f, func(in ssa.Instruction) {
+				call, ok := in.(ssa.CallInstruction)
+				if !ok || call.Common().IsInvoke() {
+					return
+				}
+				if eng.TypeStr(call.Common().Value.Type()) != "context.CancelFunc" {
+					return
+				}
+				n++
+				_, isDefer := in.(*ssa.Defer)
+				if !(isDefer && in.Parent() == run) {
+					bad++
+					c.R.Fail(rule, fmt.Sprintf("%s/cancel-call#%d", c.name(f), n), c.pos(in), "a context cancel function is called on a regular path of "+c.name(f)+": the goroutines sharing that context (the STAT walk, the file workers) are aborted although the transfer is proceeding normally - the call fails after FIN was already echoed")
+				}
+			})
+		}
+	}
+	if bad == 0 {
+		c.R.OK(rule, "fsutil/no-cancel-on-success-paths", "-", fmt.Sprintf("%d cancel function call(s) in sender.run/receiver.run and their goroutines, all deferred cleanups", n))
+	}
 }
 
 func r06_8(c *Ctx, rule string) {
